@@ -84,7 +84,10 @@ func init() {
 			strings.Repeat("0", n)+"v1",
 			"v1"+strings.Repeat(" ", n)+"zz")
 	}
-	hdrExprs = append(hdrExprs, "^[ab]*$", "^[^!]*$", "v1$", "zz$", "^a+$")
+	hdrExprs = append(hdrExprs, "^[ab]*$", "^[^!]*$", "v1$", "zz$", "^a+$",
+		// an expression is a regular expression from its first character on
+		"!v1", "!a", "!^v1$", "~v1", "=v1", "^!", "-v1")
+	hdrValues = append(hdrValues, "!v1", "x!a", "!", "~v1", "=v1")
 }
 
 // clipHdr shortens long header values for messages (the replay file has them in full).
